@@ -49,7 +49,11 @@ def w33(x):
     return z3.ZeroExt(1, x)
 
 
+ASSERTED = [0]
+
+
 def check(conds, timeout_s=120):
+    ASSERTED[0] += len(conds)
     s = z3.Solver()
     s.set("timeout", timeout_s * 1000)
     s.add(*conds)
@@ -275,7 +279,9 @@ def replay(assign, repo):
         shutil.rmtree(src, ignore_errors=True)
         shutil.copytree(nd, src, ignore=shutil.ignore_patterns("target", "Cargo.lock"))
         ct = os.path.join(src, "Cargo.toml")
-        open(ct, "w").write(open(ct).read().replace("/repo/packages/", repo.rstrip("/") + "/packages/"))
+        txt = open(ct).read().replace("/repo/packages/", repo.rstrip("/") + "/packages/")
+        with open(ct, "w") as f:
+            f.write(txt)
     tdir = os.path.join(cache, "native", "cpulist_emit_replay")
     env = dict(os.environ)
     env["CARGO_NET_OFFLINE"] = "true"
@@ -349,6 +355,8 @@ def main():
         v["reproduced"] = any(isinstance(x, dict) and x.get("rc") not in (0, None) for x in rp.values()) if "skipped" not in rp else False
         out["violations"].append(v)
     out["wall_s"] = round(time.time() - t0, 2)
+    out["symbolic_states"] = getattr(S.SymExec, "steps", 0)
+    out["asserted_formulas"] = ASSERTED[0]
     print(json.dumps(out))
 
 
